@@ -54,7 +54,16 @@ func (c *aggCase) snapshot() *stack.Snapshot {
 	for i, k := range c.Idx {
 		sigs[i] = &u[k].Sig
 	}
-	return gen.MkSnapshot(sigs)
+	s := gen.MkSnapshot(sigs)
+	sum := 0
+	for _, k := range c.Idx {
+		sum += k
+	}
+	if sum%3 != 0 {
+		// two thirds of the snapshots look as after path guessing and source analysis
+		gen.Resolve(s)
+	}
+	return s
 }
 
 // aggEvalSnap applies the oracle of r.Prop to all four aggregations of s.
